@@ -198,6 +198,30 @@ def pick_target(model, rng: random.Random, mode: str):
                 except Exception:  # noqa: BLE001
                     continue
         return None
+    if mode == "double_linked":
+        # a target that ONE owner links to through several link elements / attributes
+        per: dict[tuple, list] = {}
+        for e in semantic_elems(model._loader):
+            par = e.getparent()
+            if par is None:
+                continue
+            for k, v in e.attrib.items():
+                if k in ("id", "href") or "#" not in v:
+                    continue
+                for tkn in set(TOKEN.findall(v)):
+                    per.setdefault((id(par), e.tag, k, tkn), []).append(e)
+        # several link ELEMENTS of one relation of one owner pointing at the same target
+        multi = sorted({key[3] for key, es in per.items() if len(es) >= 2 and classify(model, es[0], key[2])[0] == "linkElem"})
+        rng.shuffle(multi)
+        for t in multi[:10]:
+            try:
+                el = model._loader[t]
+                o = O.ModelElement.from_model(model, el)
+                if o.parent is not None and el.getparent() is not None:
+                    return o
+            except Exception:  # noqa: BLE001
+                continue
+        return None
     if mode == "big_subtree":
         # a subtree root with several id-carrying members that are referenced from outside
         referenced: dict[str, set] = {}
@@ -263,6 +287,10 @@ def entry_points(model, tgt, rng: random.Random):
                 # (RoleTagAccessor.__set__ on a list raises NotImplementedError by design: not a deletion entry point)
                 out.append(("delattr", lambda r=r: delattr(r.owner, r.attr), r))
                 out.append(("assign-empty", lambda r=r: setattr(r.owner, r.attr, []), r))
+            if len(lst) >= 2 and r.kind in ("DirectProxyAccessor", "AttributeMatcherAccessor") and len(lst) <= 12:
+                # the whole list at once: one refusing member must keep ALL members (and everything else) untouched
+                others = [x for x in lst if x is not tgt]
+                out.append(("delattr-all", lambda r=r: delattr(r.owner, r.attr), r, *others))
             out.append(("decl-delete", lambda r=r: decl_delete(model, r, tgt), r))
             if len(lst) >= 2 and i + 1 < len(lst):
                 other = lst[i + 1]
@@ -280,11 +308,47 @@ def decl_delete(model, rel, tgt, other=None):
     decl.apply(model, __import__("io").StringIO(doc))
 
 
+def refusing_list_scenario(ctx: Ctx, out: Outcome, key: str, req, impl, meta):
+    """Deterministic: a whole containment list is deleted at once (`del owner.rel`) while one member that is NOT
+    the first refuses (a port that is a physical link end): nothing at all may change."""
+    model = ol.load(ctx, key)
+    _ROOTS.clear()
+    _ROOTS.update(id(t.root) for t in model._loader.trees.values())
+    rng = random.Random(f"c09r:{ctx.seed}:{key}")
+    done = 0
+    for pl in list(model.search("PhysicalLink")):
+        try:
+            ends = list(pl.ends)
+        except Exception:  # noqa: BLE001
+            continue
+        for tgt in ends:
+            eps = [e for e in entry_points(model, tgt, rng) if e[0] == "delattr-all"]
+            if not eps:
+                continue
+            ep = eps[0]
+            try:
+                lst0 = ep[2].get()
+                if lst0[0] == tgt:   # prior edit: put a fresh member in front of the refusing one
+                    spare = lst0.create(name="verif spare")
+                    ep[2].get().insert(0, spare)
+                    ep = next(e for e in entry_points(model, tgt, rng) if e[0] == "delattr-all")
+            except Exception:  # noqa: BLE001
+                continue
+            one_deletion(ctx, out, model, key, tgt, ep[0], ep[1], ep[2], "refusing-member-in-list", req, impl, meta, extra=[x._element for x in ep[3:]])
+            out.hit("scenario.refusing-member-in-list")
+            done += 1
+            break
+        if done >= ctx.pick(2, 6):
+            break
+
+
 def run(ctx: Ctx) -> Outcome:
     import os
 
     out = Outcome(rule=RULE)
     req, impl, meta = [], [], []
+    for key in (["t50", "t52", "t60"] if ctx.thorough else ["t50"]):
+        refusing_list_scenario(ctx, out, key, req, impl, meta)
     for key, ndel in (THOROUGH if ctx.thorough else QUICK):
         rng = random.Random(f"c09:{ctx.seed}:{key}")
         model = None
@@ -301,14 +365,32 @@ def run(ctx: Ctx) -> Outcome:
                               weights={"delitem": 0, "remove": 0, "clear": 0, "setitem": 0, "delete_referenced": 0, "create_nested": 0})
                 _ROOTS.update(id(t.root) for t in model._loader.trees.values())
             left -= 1
-            mode = rng.choice(["referenced", "referenced", "random", "port_with_link", "owner_of_port", "big_subtree", "big_subtree", "big_subtree"])
+            mode = rng.choice(["referenced", "referenced", "random", "port_with_link", "owner_of_port", "big_subtree", "big_subtree", "big_subtree", "double_linked", "double_linked"])
             tgt = pick_target(model, rng, mode)
+            out.hit(f"mode.{mode}.{'target' if tgt is not None else 'none'}")
             if tgt is None:
                 continue
             eps = entry_points(model, tgt, rng)
             if not eps:
                 continue
             ep = rng.choice(eps)
+            if mode in ("port_with_link", "owner_of_port"):
+                # a refusing member somewhere in the list: prefer deleting the whole list at once
+                alls = [e for e in eps if e[0] == "delattr-all"]
+                if alls and rng.random() < 0.6:
+                    ep = alls[0]
+                    # prior edit: make sure the refusing member is not the first of its list
+                    try:
+                        lst0 = ep[2].get()
+                        if len(lst0) and lst0[0] == tgt:
+                            spare = lst0.create(name="verif spare")
+                            lst1 = ep[2].get()
+                            lst1.insert(0, spare)
+                            eps = entry_points(model, tgt, rng)
+                            ep = next((e for e in eps if e[0] == "delattr-all"), ep)
+                            out.hit("prior-edit.spare-member-first")
+                    except Exception:  # noqa: BLE001
+                        pass
             name, fn, rel = ep[:3]
             one_deletion(ctx, out, model, key, tgt, name, fn, rel, mode, req, impl, meta, extra=[x._element for x in ep[3:]])
             if _ROOTS != {id(t.root) for t in model._loader.trees.values()}:
@@ -319,12 +401,15 @@ def run(ctx: Ctx) -> Outcome:
         for m, iv, ans in zip(meta, impl, answers):
             mv = ans.get("ok", {"err": ans.get("err")})
             if isinstance(mv, dict) and "refs" in mv:
-                mv = {"refs": sorted(mv["refs"])}
+                mv = {"refs": sorted(mv["refs"]), "elems": sorted(mv.get("elems", []))}
             if mv != iv:
                 detail = None
                 if isinstance(mv, dict) and isinstance(iv, dict):
                     diff = sorted(set(mv["refs"]) ^ set(iv["refs"]))
                     detail = [m[3][i] for i in diff if i < len(m[3])]
+                    if not diff:
+                        detail = [f"{len(set(iv['elems']) - set(mv['elems']))} element(s) survive that the model removes (purged link elements), "
+                                  f"{len(set(mv['elems']) - set(iv['elems']))} removed that the model keeps"]
                 out.disagree("delete", list(m[:3]) + [detail], iv, mv)
             out.hit("delete.model." + ("refused" if iv == "NotImplementedError" else "ok"))
     return out
@@ -398,7 +483,7 @@ def one_deletion(ctx, out, model, key, tgt, name, fn, rel, mode, req, impl, meta
             find(f"refused-deletion-changed-index|{outcome}", f"raised {outcome} but the indexes differ")
         return  # raising is allowed by the property as long as nothing changed (checked above)
     surviving = sorted(i for i, r in enumerate(refs) if ("#" + r["_tid"]) in r["_e"].get(r["_attr"], "") and attached_to_model(r["_e"]))
-    impl.append({"refs": surviving})
+    impl.append({"refs": surviving, "elems": sorted(id(x) for x in elems if attached_to_model(x))})
     # ---- monitor
     scan_ids = {e.get("id") for e in semantic_elems(loader) if e.get("id")}
     for k in sub_ids:
@@ -484,6 +569,10 @@ def one_deletion(ctx, out, model, key, tgt, name, fn, rel, mode, req, impl, meta
     if bad:
         kinds_b = sorted({x[0] for x in bad})
         find(f"side-effect|{name}|{'+'.join(kinds_b)}", f"changed other parts of the model: {bad[:4]} ({len(bad)} in total)")
+    # a link element IS the reference: it must go, not merely lose its target attribute
+    husks = [r for r in incoming if r["kind"] == "linkElem" and attached_to_model(r["_e"])]
+    if husks:
+        find("link-element-survives-without-target", f"{len(husks)} link element(s) that pointed at a deleted element are still in the model, e.g. <{husks[0]['_e'].tag}> {husks[0]['_e'].get('id')}")
     # exposed references that survived
     left = [r for i, r in enumerate(refs) if i in surviving and r["target"] in sub_n and r["owner"] not in sub_n and r["kind"] not in ("unexposed",)]
     if left:
